@@ -56,6 +56,20 @@ Definition pseg_slice (P : list Z) (irs : Z) (p : pseg) : Prop :=
 Definition ev_ok (P : list Z) (irs : Z) (e : event) : Prop :=
   match e with ESeg s _ => seg_slice P irs s | _ => True end.
 
+(* generalisation: segments that carry neither data nor FIN (pure ACKs, window updates, RSTs) may
+   have ANY sequence number (e.g. the peer's ACKs after its FIN, at |P|+1; a RST at sndUna) *)
+Definition ev_ok2 (P : list Z) (irs : Z) (e : event) : Prop :=
+  match e with
+  | ESeg s _ => (s_data s = [] /\ has (s_flags s) fFin = false) \/ seg_slice P irs s
+  | _ => True
+  end.
+
+Lemma ev_ok_ok2 P irs e : ev_ok P irs e -> ev_ok2 P irs e.
+Proof. destruct e; cbn; auto. Qed.
+
+Lemma Forall_ev_ok_ok2 P irs es : Forall (ev_ok P irs) es -> Forall (ev_ok2 P irs) es.
+Proof. apply Forall_impl. apply ev_ok_ok2. Qed.
+
 Lemma len_zlen l : len l = zlen l. Proof. reflexivity. Qed.
 
 Lemma has_fin fl : has fl fFin = true <-> fin_set fl.
@@ -389,11 +403,39 @@ Proof.
     apply push_Forall; [exact H6|]. exists off. cbn. rewrite <- Hseq. auto.
 Qed.
 
+(* a segment without data and without FIN, whatever its sequence number: it is either not
+   consumed (and then not parked either), or consumed with rcvNxt unchanged *)
+Lemma rcvHandle_empty_inv P irs rd t s :
+  zlen P < 2^31 -> rcv_inv P irs rd t -> s_data s = [] -> has (s_flags s) fFin = false ->
+  rcv_inv P irs rd (rcvHandle t s).
+Proof.
+  intros HP HR Hd Hf. unfold rcvHandle.
+  destruct (rclosed (RC t)) eqn:Hc; [exact HR|]. cbn zeta.
+  destruct (negb (acceptable _ _ _)).
+  { eapply rcv_inv_rview; [apply rview_sendAck|exact HR]. }
+  rewrite consumeSegment_unfold, Hd. cbn zeta. change (0 <? len []) with false. cbv iota.
+  destruct (s_seq s =? rcvNxt (RC t)) eqn:EQ; cbn [negb].
+  2:{ rewrite Hf. cbn [orb negb]. exact HR. }
+  unfold cgo. rewrite Hf. cbn zeta. cbn [negb]. apply drain_inv; [exact HP|].
+  apply Z.eqb_eq in EQ. destruct HR as [n [H1 H2 H3 H4 H5 H6]]. exists n.
+  constructor; cbn; try assumption.
+  rewrite EQ, H2, seq_of_add. f_equal. lia.
+Qed.
+
+Lemma rcvHandle_inv2 P irs rd t s :
+  zlen P < 2^31 -> rcv_inv P irs rd t ->
+  (s_data s = [] /\ has (s_flags s) fFin = false) \/ seg_slice P irs s ->
+  rcv_inv P irs rd (rcvHandle t s).
+Proof.
+  intros HP HR [[Hd Hf]|Hs]; [apply rcvHandle_empty_inv|apply rcvHandle_inv]; assumption.
+Qed.
+
 Lemma rcvHandle_closed t s : rclosed (RC t) = true -> rcvHandle t s = t.
 Proof. intros H. unfold rcvHandle. rewrite H. reflexivity. Qed.
 
 Lemma handleSegment_inv P irs rd t s nr idle :
-  zlen P < 2^31 -> rcv_inv P irs rd t -> seg_slice P irs s ->
+  zlen P < 2^31 -> rcv_inv P irs rd t ->
+  (s_data s = [] /\ has (s_flags s) fFin = false) \/ seg_slice P irs s ->
   rcv_inv P irs rd (handleSegment t s nr idle).
 Proof.
   intros HP HR Hs. unfold handleSegment.
@@ -407,7 +449,7 @@ Proof.
   - cbn zeta. apply A.
     destruct (has (s_flags s) fAck); [|exact HR].
     destruct (tsOk t && negb (s_ts s)); [exact HR|].
-    eapply rcv_inv_rview; [apply rview_sndHandle|]. apply rcvHandle_inv; assumption.
+    eapply rcv_inv_rview; [apply rview_sndHandle|]. apply rcvHandle_inv2; assumption.
 Qed.
 
 (* once the receiver is closed, segment processing never touches the receive side again,
@@ -502,7 +544,7 @@ Proof.
 Qed.
 
 Lemma step_inv P irs rd t e :
-  zlen P < 2^31 -> ev_ok P irs e -> rcv_inv P irs rd t ->
+  zlen P < 2^31 -> ev_ok2 P irs e -> rcv_inv P irs rd t ->
   rcv_inv P irs (rd ++ concat (read_of (snd (step t e)))) (fst (step t e)) /\
   Forall (fun c : list Z => c <> []) (read_of (snd (step t e))).
 Proof.
@@ -525,7 +567,7 @@ Proof.
   - destruct C as [Hr Hv]. apply N; [exact Hr|]. eapply rcv_inv_rview; eassumption.
 Qed.
 
-Lemma run_inv P irs es : zlen P < 2^31 -> Forall (ev_ok P irs) es ->
+Lemma run_inv P irs es : zlen P < 2^31 -> Forall (ev_ok2 P irs) es ->
   forall rd t, rcv_inv P irs rd t ->
   rcv_inv P irs (rd ++ concat (reads_run t es)) (run t es) /\
   Forall (fun c : list Z => c <> []) (reads_run t es).
@@ -578,36 +620,37 @@ Proof.
   - constructor.
 Qed.
 
-(* the invariant is inductive along every run of admissible events *)
-Theorem rcv_inv_run P irs rd0 t es :
-  zlen P < 2^31 -> rcv_inv P irs rd0 t -> Forall (ev_ok P irs) es ->
+(* the invariant is inductive along every run of admissible events (general form [ev_ok2]:
+   segments without data and FIN may carry any sequence number) *)
+Theorem rcv_inv_run2 P irs rd0 t es :
+  zlen P < 2^31 -> rcv_inv P irs rd0 t -> Forall (ev_ok2 P irs) es ->
   rcv_inv P irs (rd0 ++ concat (reads_run t es)) (run t es).
 Proof. intros HP HR Hes. apply run_inv; assumption. Qed.
 
 (* main statement: bytes read ++ bytes queued = the first n bytes of the peer's stream, where n is
    the offset named by rcvNxt *)
-Theorem rcv_stream_prefix P irs rd0 t es :
-  zlen P < 2^31 -> rcv_inv P irs rd0 t -> Forall (ev_ok P irs) es ->
+Theorem rcv_stream_prefix2 P irs rd0 t es :
+  zlen P < 2^31 -> rcv_inv P irs rd0 t -> Forall (ev_ok2 P irs) es ->
   exists n, 0 <= n <= zlen P /\
     rcvNxt (RC (run t es)) = seq_of irs (if rclosed (RC (run t es)) then n + 1 else n) /\
     (rclosed (RC (run t es)) = true -> n = zlen P) /\
     rd0 ++ concat (reads_run t es) ++ concat (rcvList (run t es)) = firstn (Z.to_nat n) P.
 Proof.
-  intros HP HR Hes. destruct (rcv_inv_run P irs rd0 t es HP HR Hes) as [n [H1 H2 H3 H4 H5 H6]].
+  intros HP HR Hes. destruct (rcv_inv_run2 P irs rd0 t es HP HR Hes) as [n [H1 H2 H3 H4 H5 H6]].
   exists n. repeat split; try assumption; try lia. rewrite app_assoc. exact H4.
 Qed.
 
-Theorem rcv_reads_prefix P irs rd0 t es :
-  zlen P < 2^31 -> rcv_inv P irs rd0 t -> Forall (ev_ok P irs) es ->
+Theorem rcv_reads_prefix2 P irs rd0 t es :
+  zlen P < 2^31 -> rcv_inv P irs rd0 t -> Forall (ev_ok2 P irs) es ->
   exists rest, rd0 ++ concat (reads_run t es) ++ rest = P.
 Proof.
-  intros HP HR Hes. destruct (rcv_stream_prefix P irs rd0 t es HP HR Hes) as (n & _ & _ & _ & H).
+  intros HP HR Hes. destruct (rcv_stream_prefix2 P irs rd0 t es HP HR Hes) as (n & _ & _ & _ & H).
   exists (concat (rcvList (run t es)) ++ skipn (Z.to_nat n) P).
   rewrite <- (firstn_skipn (Z.to_nat n) P) at 2. rewrite <- H, <- !app_assoc. reflexivity.
 Qed.
 
-Theorem rcv_no_empty_chunk P irs rd0 t es :
-  zlen P < 2^31 -> rcv_inv P irs rd0 t -> Forall (ev_ok P irs) es ->
+Theorem rcv_no_empty_chunk2 P irs rd0 t es :
+  zlen P < 2^31 -> rcv_inv P irs rd0 t -> Forall (ev_ok2 P irs) es ->
   Forall (fun c : list Z => c <> []) (reads_run t es) /\
   Forall (fun c : list Z => c <> []) (rcvList (run t es)).
 Proof.
@@ -616,14 +659,45 @@ Proof.
 Qed.
 
 (* once the FIN has been consumed the whole stream, and nothing else, has been delivered *)
+Theorem rcv_eof_complete2 P irs rd0 t es :
+  zlen P < 2^31 -> rcv_inv P irs rd0 t -> Forall (ev_ok2 P irs) es ->
+  rclosed (RC (run t es)) = true ->
+  rd0 ++ concat (reads_run t es) ++ concat (rcvList (run t es)) = P.
+Proof.
+  intros HP HR Hes Hc. destruct (rcv_stream_prefix2 P irs rd0 t es HP HR Hes) as (n & _ & _ & Hn & H).
+  rewrite H, (Hn Hc). unfold zlen. rewrite Nat2Z.id. apply firstn_all.
+Qed.
+
+(* the same under the stricter [ev_ok] (every segment a slice): corollaries *)
+Theorem rcv_inv_run P irs rd0 t es :
+  zlen P < 2^31 -> rcv_inv P irs rd0 t -> Forall (ev_ok P irs) es ->
+  rcv_inv P irs (rd0 ++ concat (reads_run t es)) (run t es).
+Proof. intros HP HR Hes. apply (rcv_inv_run2 P irs); [| |apply Forall_ev_ok_ok2]; assumption. Qed.
+
+Theorem rcv_stream_prefix P irs rd0 t es :
+  zlen P < 2^31 -> rcv_inv P irs rd0 t -> Forall (ev_ok P irs) es ->
+  exists n, 0 <= n <= zlen P /\
+    rcvNxt (RC (run t es)) = seq_of irs (if rclosed (RC (run t es)) then n + 1 else n) /\
+    (rclosed (RC (run t es)) = true -> n = zlen P) /\
+    rd0 ++ concat (reads_run t es) ++ concat (rcvList (run t es)) = firstn (Z.to_nat n) P.
+Proof. intros HP HR Hes. apply (rcv_stream_prefix2 P irs); [| |apply Forall_ev_ok_ok2]; assumption. Qed.
+
+Theorem rcv_reads_prefix P irs rd0 t es :
+  zlen P < 2^31 -> rcv_inv P irs rd0 t -> Forall (ev_ok P irs) es ->
+  exists rest, rd0 ++ concat (reads_run t es) ++ rest = P.
+Proof. intros HP HR Hes. apply (rcv_reads_prefix2 P irs); [| |apply Forall_ev_ok_ok2]; assumption. Qed.
+
+Theorem rcv_no_empty_chunk P irs rd0 t es :
+  zlen P < 2^31 -> rcv_inv P irs rd0 t -> Forall (ev_ok P irs) es ->
+  Forall (fun c : list Z => c <> []) (reads_run t es) /\
+  Forall (fun c : list Z => c <> []) (rcvList (run t es)).
+Proof. intros HP HR Hes. apply (rcv_no_empty_chunk2 P irs rd0); [| |apply Forall_ev_ok_ok2]; assumption. Qed.
+
 Theorem rcv_eof_complete P irs rd0 t es :
   zlen P < 2^31 -> rcv_inv P irs rd0 t -> Forall (ev_ok P irs) es ->
   rclosed (RC (run t es)) = true ->
   rd0 ++ concat (reads_run t es) ++ concat (rcvList (run t es)) = P.
-Proof.
-  intros HP HR Hes Hc. destruct (rcv_stream_prefix P irs rd0 t es HP HR Hes) as (n & _ & _ & Hn & H).
-  rewrite H, (Hn Hc). unfold zlen. rewrite Nat2Z.id. apply firstn_all.
-Qed.
+Proof. intros HP HR Hes Hc. apply (rcv_eof_complete2 P irs); [| |apply Forall_ev_ok_ok2|]; assumption. Qed.
 
 (* after end-of-stream nothing is ever appended to the receive queue, whatever arrives (no
    hypothesis on the events): the queue only shrinks by what the reads return *)
